@@ -701,6 +701,13 @@ func (c *Ctx) VerifyFunction(key string) (*FuncReport, error) {
 			}
 			st.Assume(t)
 		}
+		if ct.Decreases != nil {
+			m, err := c.evalSpec(env, ct.Decreases.Expr)
+			if err != nil {
+				return nil, fmt.Errorf("CONTRACT-ERROR %s: %v", ct.Decreases.Line, err)
+			}
+			run.entryMeasure = m.t
+		}
 		c.captureOld(env, ct.Ensures, run.oldCache)
 		// vacuity guard: the precondition must be satisfiable
 		c.emit(st, nil, nil, "cover", "precondition", True, "precondition satisfiable", true)
@@ -788,10 +795,15 @@ func (c *Ctx) bindLoopVars(env *specEnv, fr *Frame, head *ssa.BasicBlock) {
 		if !ok {
 			break
 		}
+		t, ok := fr.regs[phi].(Term)
+		if !ok {
+			continue
+		}
 		if phi.Comment == "rangeindex" {
-			if t, ok := fr.regs[phi].(Term); ok {
-				env.vars["rangeidx"] = specVal{t: t, typ: tInt}
-			}
+			env.vars["rangeidx"] = specVal{t: t, typ: tInt}
+		} else if phi.Comment != "" {
+			// a loop-carried source variable: at the loop head its value is the phi
+			env.vars[phi.Comment] = specVal{t: t, typ: phi.Type()}
 		}
 	}
 }
